@@ -4,6 +4,7 @@ from hypothesis import strategies as st
 from mingus.core import chords
 from mingus.core.mt_exceptions import FormatError, NoteFormatError
 
+from vlib import fuzz
 from vlib.core import Sub, failed
 from vlib.ref import chords_ref as R
 from vlib.ref import theory as T
@@ -356,7 +357,26 @@ def sub_malformed(ctx, shard, n):
     ctx.given("malformed", check_malformed, _st_text(), 2000 if ctx.quick else 10000)
 
 
+
+# ---- coverage-guided fuzz target (atheris): bytes -> text biased towards the relevant alphabet ------------------
+_FUZZ_ALPHABET = list('ABCDEFG#b/|mM7965+-susdimajNC.hdx1234 o')
+
+
+def _fuzz_text(fdp):
+    raw = fdp.ConsumeBytes(fdp.ConsumeIntInRange(1, 14))
+    s = "".join(_FUZZ_ALPHABET[b] if b < len(_FUZZ_ALPHABET) else chr(b if b < 128 else 0x100 + b) for b in raw)
+    return s or None
+
+
+FUZZ = {"shorthand": (lambda fdp: (lambda s: None if s is None else ["text", s])(_fuzz_text(fdp)), "malformed")}
+
+def sub_fuzz(ctx, shard, n):
+    """any text either builds a list or is rejected with FormatError / NoteFormatError (coverage-guided over the shorthand parser)"""
+    fuzz.run(ctx, __name__, "shorthand", 30000 if ctx.quick else 400000, max_len=16)
+
+
 SUBS = [
+    Sub("fuzz", sub_fuzz, quick=1, thorough=4),
     Sub("formula", sub_formula, quick=2, thorough=4),
     Sub("alias", sub_alias, quick=2, thorough=4),
     Sub("slash", sub_slash, quick=2, thorough=8),
